@@ -5,7 +5,8 @@ The numeric kernels are parameters: `step : W → S → W` (one multislice step 
 slice: `conventional_multislice_step` / `realspace_multislice_step`), `detect : W → M`
 (`detector.detect`).  The Python control flow is mirrored literally:
 
-  for potential_index, configuration in _generate_potential_configurations(potential):   → `configLoop`
+  for i, (potential_index, configuration) in enumerate(_generate_potential_configurations(potential)):  → `configLoop`
+      if i > 0: waves = incident_waves.copy()
       exit_plane_index = 0
       if potential.exit_planes[0] == -1: write(detect(waves)); exit_plane_index += 1       → `entranceWrites`
       for potential_slice in configuration.generate_slices():                              → `sliceLoop`
@@ -78,14 +79,16 @@ def runConfig (step : W → S → W) (detect : W → M) (p : Pot S) (first : Int
   let r := sliceLoop step detect mk w (startIndex ent) (flagged p.planes first cfg)
   (r.1, (if ent then [(mk 0, detect w)] else []) ++ r.2)
 
-/-- outer loop over configurations.  The wave is threaded through: the code copies the incident wave once,
-before the loop (DESIGN §7 F1), so configuration `c+1` starts from the exit wave of configuration `c`. -/
-def configLoop (step : W → S → W) (detect : W → M) (p : Pot S) (first : Int) :
+/-- outer loop over configurations.  Every configuration after the first starts from a fresh copy of the incident
+wave `w0` (`waves = incident_waves.copy()`); the first one uses the copy made before the loop — the same value.  The
+second wave argument is the wave left by the previous configuration (only the last one is read, by the
+`measurements is None` branch). -/
+def configLoop (step : W → S → W) (detect : W → M) (p : Pot S) (first : Int) (w0 : W) :
     W → Nat → List (List S) → W × List (Write M)
   | w, _, [] => (w, [])
-  | w, c, cfg :: rest =>
-    let r := runConfig step detect p first c w cfg
-    let r' := configLoop step detect p first r.1 (c + 1) rest
+  | _, c, cfg :: rest =>
+    let r := runConfig step detect p first c w0 cfg
+    let r' := configLoop step detect p first w0 r.1 (c + 1) rest
     (r'.1, r.2 ++ r'.2)
 
 /-- `multislice_and_detect` for one detector -/
@@ -94,7 +97,7 @@ def multisliceAndDetect (step : W → S → W) (detect : W → M) (w0 : W) (p : 
   | [] => .error "index_error"                       -- `potential.exit_planes[0]`
   | first :: _ =>
     let shape := extraShape p
-    let r := configLoop step detect p first w0 0 p.configs
+    let r := configLoop step detect p first w0 w0 0 p.configs
     if mNoTable ((shape.foldl (· + ·) 0 : Nat) : Int) (p.planes.getLastD 0) (p.nslices : Int) then
       .ok (.final (if p.ensAxis then [1] else []) (detect r.1))
     else .ok (.table shape r.2)
